@@ -224,10 +224,62 @@ func runSvg(c *svgCase) {
 
 // the generator decodes the JSON itself; the case records what it will see
 func mkSvgCase(t *topology.Topology, m map[uint32]uint32, opts [4]bool, baseID int) *svgCase {
-	js := t.ToJSON()
+	return mkSvgCaseRaw(t.ToJSON(), m, opts, baseID)
+}
+
+// any text as topologyJSON: the generator ignores json.Unmarshal's error and works on whatever
+// was decoded; the case records exactly that (partial) topology
+func mkSvgCaseRaw(js string, m map[uint32]uint32, opts [4]bool, baseID int) *svgCase {
 	var seen topology.Topology
-	json.Unmarshal([]byte(js), &seen)
+	func() {
+		defer func() { recover() }()
+		json.Unmarshal([]byte(js), &seen)
+	}()
 	return &svgCase{t: &seen, js: js, m: m, opts: opts, baseID: baseID}
+}
+
+// malformed / unusual topology JSON derived from a valid document
+func mutateJSON(js string, rng *Rng) (string, string) {
+	pick := func(xs []string) string { return xs[rng.Intn(len(xs))] }
+	switch k := rng.Intn(12); k {
+	case 0: // truncated
+		if len(js) > 1 {
+			return js[:1+rng.Intn(len(js)-1)], "truncated"
+		}
+	case 1: // a number becomes a string / bool / null / float / huge
+		repl := pick([]string{`"7"`, `true`, `null`, `1.5`, `1e400`, `99999999999999999999`, `-3`, `[]`, `{}`})
+		idx := strings.Index(js, `"x":`)
+		if idx >= 0 {
+			end := idx + 4
+			for end < len(js) && strings.ContainsRune("-0123456789.eE", rune(js[end])) {
+				end++
+			}
+			return js[:idx+4] + repl + js[end:], "x-replaced"
+		}
+	case 2: // key case changed (encoding/json matches case-insensitively)
+		return strings.Replace(strings.Replace(js, `"id":`, `"ID":`, -1), `"typeIndex":`, `"TYPEINDEX":`, 1), "key-case"
+	case 3: // duplicate key: last wins
+		return strings.Replace(js, `"id":`, `"id":77,"id":`, 1), "duplicate-key"
+	case 4: // unknown fields
+		return strings.Replace(js, `"id":`, `"unknown":{"a":[1,2,{"b":null}]},"id":`, -1), "unknown-field"
+	case 5: // wrong container types
+		return strings.Replace(js, `"HWc":[`, `"HWc":{"a":[`, 1), "hwc-object"
+	case 6:
+		return `[` + js + `]`, "array-wrapped"
+	case 7:
+		return pick([]string{``, `null`, `{}`, `[]`, `"x"`, `{"HWc":null,"typeIndex":null}`, `{"HWc":[null,{}],"typeIndex":{"1":null}}`,
+			`{"typeIndex":{"x":{}}}`, `{"typeIndex":{"-1":{},"4294967296":{},"01":{"w":3}}}`, "\xff{", `{"HWc":[{"id":-1}]}`,
+			`{"HWc":[{"id":1,"type":1,"typeOverride":null}],"typeIndex":{"1":{"w":10,"h":5,"rotate":"x"}}}`}), "literal"
+	case 8: // null override / disp / sub
+		return strings.Replace(strings.Replace(js, `"disp":{`, `"disp":null,"x_disp":{`, 1), `"sub":[`, `"sub":null,"x_sub":[`, 1), "nulls"
+	case 9: // whitespace and escapes
+		return strings.Replace(strings.Replace(js, `,`, " ,\n\t", -1), `"txt":"`, `"txt":"\u0041\n`, -1), "whitespace-escapes"
+	case 10: // trailing garbage
+		return js + pick([]string{`x`, `{}`, ` `, `,`}), "trailing"
+	case 11: // negative / float sizes
+		return strings.Replace(js, `"w":`, `"w":-`, 1), "negative-w"
+	}
+	return js, "unchanged"
 }
 
 func replayC15(line string) {
@@ -401,6 +453,27 @@ func genC15(tier string, rng *Rng) {
 		runSvg(mkSvgCase(t, m, op, bid))
 		hist["random"]++
 	}
+	// ---- 3b. malformed / unusual topology JSON (the generator ignores the decode error)
+	n3b := 1200
+	if thorough {
+		n3b = 15000
+	}
+	for i := 0; i < n3b; i++ {
+		o := &fillOpt{rng: rng, tricky: rng.Intn(2) == 0, pPresent: 30 + rng.Intn(60), maxSlice: 2, depthLimit: 5}
+		t := mkTopo(1+rng.Intn(4), o)
+		js, kind := mutateJSON(t.ToJSON(), rng)
+		var m map[uint32]uint32
+		if rng.Intn(3) == 0 {
+			m = map[uint32]uint32{1: 1, 2: 0, 3: 5, 77: 1}
+		}
+		op := defOpts
+		if rng.Intn(2) == 0 {
+			op = allOpts[rng.Intn(16)]
+		}
+		runSvg(mkSvgCaseRaw(js, m, op, rng.Intn(7)))
+		hist["malformed-json-"+kind]++
+	}
+
 	// ---- 4. every base document with a fixed small topology
 	for bid := range baseDocs {
 		t := mkTopo(3, &fillOpt{rng: rng, pPresent: 60, maxSlice: 2, depthLimit: 4})
